@@ -53,6 +53,53 @@ theorem canonical_ignores_tag_and_comments (c : Combinator) (id : UInt32) (ex : 
     ({ c with construct := { c.construct with id := id, explicit := ex }, cb := cb, cr := cr } : Combinator).canonicalForm =
       c.canonicalForm := rfl
 
+
+/-! ### the documented form (`DocCanonical.lean`): full statement, partial theorem, counter-example -/
+
+/-- Full-strength statement: the implementation's canonical form is the documented one (uniform rules, also inside
+repetition brackets).  It is **false** (`canonical_as_documented_fails_at`). -/
+def CanonicalAsDocumented : Prop := ∀ c : Combinator, c.canonicalForm = c.docCanonical
+
+/-- Under the decidable guard "the contents of repetition brackets are plain" (no `!`, no arguments, no `%` on a
+lower-case name, no masked nested repetition) the implementation's form is the documented one — for every
+combinator, parsed or not. -/
+theorem canonical_as_documented_partial (c : Combinator) (h : c.plainBrackets = true) :
+    c.canonicalForm = c.docCanonical := canonical_eq_doc c h
+
+def bn (s : String) : Name := ⟨[], strBytes s⟩
+def plainF (n : String) (t : TypeRef) : Field := .mk (strBytes n) none false (.type t) false [] []
+/-- `foo n:# a:n*[x:%int y:(tuple int 1+2)] = Foo;` as a tree -/
+def witness : Combinator :=
+  { builtin := false, isFunction := false, mods := [], construct := ⟨bn "foo", 0, false⟩, targs := [],
+    fields := [plainF "n" (.mk ⟨[], [cHash]⟩ [] false),
+               .mk (strBytes "a") none false (.rep (some (.name (strBytes "n")))
+                 [plainF "x" (.mk (bn "int") [] true),
+                  plainF "y" (.mk (bn "tuple") [.type (.mk (bn "int") [] false), .arith ⟨[1, 2], 3⟩] false)]) false [] []],
+    typeDecl := ⟨bn "Foo", []⟩, funcDecl := TypeRef.zero, cb := [], cr := [] }
+
+/-- the implementation keeps `%int`, the parentheses and `1 + 2` inside the brackets … -/
+theorem witness_canonical : witness.canonicalForm = strBytes "foo n:# a:n*[ x:%int y:(tuple int 1 + 2) ] = Foo" := by
+  simp [witness, plainF, bn, Combinator.canonicalForm, Field.crc, rwsCrc, repCrc, Field.str, FieldBody.str, TypeRef.str, TypeRef.crc,
+    AOT.str, argsStr, argsCrc, Arith.str, scaleCrc, nameColon, maskStr, crcBareMark, Name.str, TypeDecl.str, decBytes, decBytesAux, digitByte]
+  decide
+/-- … the documented rules give `int`, no parentheses and the value `3` -/
+theorem witness_documented : witness.docCanonical = strBytes "foo n:# a:n*[ x:int y:tuple int 3 ] = Foo" := by
+  simp [witness, plainF, bn, Combinator.docCanonical, docField, docBody, docRep, TypeRef.crc, AOT.crc,
+    argsCrc, scaleCrc, nameColon, maskStr, crcBareMark, Name.str, TypeDecl.str, decBytes, decBytesAux, digitByte]
+  decide
+
+theorem canonical_as_documented_fails_at : ¬ CanonicalAsDocumented := by
+  intro h
+  have := h witness
+  rw [witness_canonical, witness_documented] at this
+  exact absurd this (by decide)
+
+/-- the guard is satisfiable by a combinator that does have bracket contents -/
+example : ({ witness with fields := [.mk (strBytes "a") none false (.rep none [plainF "x" (.mk (bn "Int") [] true)]) false [] []] } :
+    Combinator).plainBrackets = true := by
+  simp [Combinator.plainBrackets, plainField, plainRep, plainType, plainF, bn]
+  decide
+
 /-- Full-strength layout statement (tied and explored by the check, not proved in Lean): two token streams with the
 same non-whitespace tokens parse to the same combinators up to comments.  `stripWS` is what the parser sees. -/
 def stripWS (ts : List Token) : List Token := ts.filter (fun t => !t.ty.isWS)
